@@ -298,7 +298,16 @@ pub fn types() -> Vec<Ty> {
 fn directed(t: &Ty) -> Vec<Vec<Pat>> {
     if let Ty::Int(_, lo, hi) = t {
         let mid = if *lo < 0 { 0 } else { lo + (hi - lo) / 2 };
-        if *hi == i64::MAX { return vec![vec![Pat::Incl(*lo, -1), Pat::Incl(0, *hi)]]; }
+        if *hi == i64::MAX {
+            return vec![
+                vec![Pat::Incl(*lo, -1), Pat::Incl(0, *hi)],
+                vec![Pat::Int(*lo), Pat::Incl(5, *hi)],
+                vec![Pat::Incl(*lo, -10), Pat::Incl(10, *hi)],
+                vec![Pat::Incl(5, *hi)],
+                vec![Pat::Incl(*lo, -1), Pat::Incl(1, *hi)],
+                vec![Pat::Incl(*lo, -1), Pat::Int(0), Pat::Incl(1, *hi)],
+            ];
+        }
         let mut out_of_range = vec![];
         if *hi < i64::MAX / 4 {
             // literals and range bounds outside the scrutinee type (between signed and unsigned literals, beyond MAX):
@@ -324,6 +333,19 @@ fn directed(t: &Ty) -> Vec<Vec<Pat>> {
             vec![Pat::Incl(*lo, -1i64.max(*lo)), Pat::Int(0i64.clamp(*lo, *hi)), Pat::Incl(1i64.clamp(*lo, *hi), *hi)],
         ];
         v.extend(out_of_range);
+        if *lo < 0 {
+            // signed scrutinee, non-negative (unsuffixed) literals and ranges, gaps that straddle 0: must be rejected
+            v.push(vec![Pat::Int(*lo), Pat::Incl(5, *hi)]);
+            v.push(vec![Pat::Incl(*lo, -10), Pat::Incl(10, *hi)]);
+            v.push(vec![Pat::Incl(5, *hi)]);
+            v.push(vec![Pat::Incl(*lo, -1), Pat::Incl(1, *hi)]);
+            v.push(vec![Pat::Incl(*lo, -2), Pat::Int(0), Pat::Incl(1, *hi)]);
+            v.push(vec![Pat::Int(*lo), Pat::Int(0), Pat::Incl(1, *hi)]);
+            v.push(vec![Pat::Incl(*lo, -1), Pat::Int(0), Pat::Incl(2, *hi)]);
+            // ... and the exhaustive variants must be accepted
+            v.push(vec![Pat::Incl(*lo, -1), Pat::Int(0), Pat::Incl(1, *hi)]);
+            v.push(vec![Pat::Int(*lo), Pat::Incl(*lo + 1, -1), Pat::Incl(0, *hi)]);
+        }
         // empty and inverted ranges match nothing
         v.push(vec![Pat::Excl(*lo, *lo), Pat::Wild]);
         v.push(vec![Pat::Excl(mid, mid), Pat::Wild]);
